@@ -354,7 +354,11 @@ class StoreRun:
     def new_item(self, kind):
         from factorysimpy.helper.item import Item
         self.serial += 1
-        it = Item("i%d" % self.serial)
+        if self.case["subject"].get("pallets"):
+            from factorysimpy.helper.pallet import Pallet
+            it = Pallet("i%d" % self.serial)
+        else:
+            it = Item("i%d" % self.serial)
         it.kind = kind
         it.serial = self.serial
         it.length = self.case["subject"].get("geometry", {}).get("il", 1)
@@ -465,6 +469,25 @@ class StoreRun:
                 else:
                     outcome["value"] = v
                     t.state = "cancelled"
+        elif k == "peek":
+            # read-only part of the public edge API: looking must not change anything (every oracle goes on as if
+            # nothing had happened)
+            e = S.edge
+            if e is None:
+                outcome["skipped"] = True
+            else:
+                names = {"Buffer": ["occupancy", "ready_items", "items", "can_put", "can_get"],
+                         "Fleet": ["get_occupancy", "get_ready_items", "get_items", "can_put", "can_get"],
+                         "ContinuousConveyor": ["occupancy", "items", "ready_items", "is_empty", "is_full", "is_stalled"],
+                         "SlottedConveyor": ["belt_occupancy", "is_empty", "is_full", "is_stalled"]}.get(S.cls, [])
+                for nm in names:
+                    fn = getattr(e, nm, None)
+                    if fn is None:
+                        continue
+                    st, v = self.as_actor(op[1] % self.n_actors if len(op) > 1 else 0, fn)
+                    if st == "exc":
+                        outcome.update(status="exc", exc=v)
+                        break
         elif k == "settle":
             self.settle()
         elif k == "adv":
